@@ -111,8 +111,9 @@ class Project(Container):
             from_modules = [from_modules]
         if isinstance(to_modules, (DisconnectingModule, Module)):
             to_modules = [to_modules]
-        for from_module in from_modules:
-            for to_module in to_modules:
+        for from_operand in from_modules:
+            for to_operand in to_modules:
+                from_module, to_module = from_operand, to_operand
                 disconnect = False
                 if isinstance(from_module, DisconnectingModule):
                     disconnect = True
